@@ -1505,6 +1505,31 @@ def tie(ctx):
     dist['cpx_sessions'] = n_c
     dist['cpx_event_kinds'] = ekinds
 
+    # ---- P. one CPXPacket object: attribute assignments between encodes (wireData / TCP writePacket), also after filling it from bytes
+    def pop_term(op):
+        if op[0] == 'enc':
+            return 'PEnc'
+        if op[0] == 'write':
+            return 'PWrite'
+        if op[0] == 'decode':
+            return 'PMut (MDecode %s)' % coqrun.zlist(op[1])
+        f, v = op[1], op[2]
+        return 'PMut (%s)' % {'source': 'MSrc %d' % v if f == 'source' else '', 'destination': 'MDst %d' % v if f == 'destination' else '',
+                              'function': 'MFn %d' % v if f == 'function' else '', 'version': 'MVer %d' % v if f == 'version' else '',
+                              'lastPacket': 'MLast %s' % ('true' if v else 'false') if f == 'lastPacket' else '',
+                              'data': 'MData %s' % coqrun.zlist(v) if f == 'data' else ''}[f]
+    terms, exp, hcs = [], [], []
+    for i in range(ctx.scale(300, 5000)):
+        hc = _history_case(rng)
+        hc['ops'] = [op for op in hc['ops'] if op[0] != 'uwrite']
+        b = hc['build']
+        terms.append('concat (map enc_resb (h_run (mkp %d %d %d %d 0 %d %s) [%s]))' % (b[0], b[1], b[2], b[3], len(b[4]), coqrun.zlist(b[4]),
+                                                                                      '; '.join(pop_term(op) for op in hc['ops'])))
+        exp.append(sum(impl_history(b, hc['ops']), []))
+        hcs.append(dict(hc, what='encodes of one packet object differ from h_run'))
+    run_blocks('c18p', terms, exp, lambda bi: hcs[bi], 60)
+    dist['packet_history_cases'] = len(hcs)
+
     # ---- T. TcpDriver end to end (its own connect: router thread + receive thread; send_packet; receive_packet(0, >0, <0); close)
     def dev_term(e):
         if e[0] == 'P':
@@ -1970,6 +1995,85 @@ def _check_writers(writers, piece, schedule):
     return None
 
 
+def impl_history(build, ops):
+    """one real CPXPacket object: build = [s, d, f, last, data]; ops: ['enc'] (wireData), ['write'] (SocketTransport.writePacket),
+    ['uwrite'] (UARTTransport.writePacket), ['set', field, value], ['decode', bytes].  Returns the encoded outputs."""
+    p = make_packet(*build)
+    outs = []
+    with _quiet():
+        for op in ops:
+            if op[0] == 'enc':
+                b = list(p.wireData)
+                outs.append([0, len(b)] + b)
+            elif op[0] == 'write':
+                outs.append(impl_write(p)[0])
+            elif op[0] == 'uwrite':
+                t = _uart(b'')
+                try:
+                    t.writePacket(p)
+                    outs.append([0, len(t._serial.written[-1])] + list(t._serial.written[-1]))
+                except (TypeError, ValueError):
+                    outs.append([1, 12])
+            elif op[0] == 'set':
+                f, v = op[1], op[2]
+                if f == 'source':
+                    p.source = _tg_member(v)
+                elif f == 'destination':
+                    p.destination = _tg_member(v)
+                elif f == 'function':
+                    p.function = _fn_member(v)
+                elif f == 'version':
+                    p.version = v
+                elif f == 'lastPacket':
+                    p.lastPacket = bool(v)
+                else:
+                    p.data = bytearray(v)
+            else:
+                p.wireData = bytearray(op[1])
+    return outs
+
+
+def _history_case(rng, simple_field=None):
+    build = [rng.choice(TARGETS), rng.choice(TARGETS), rng.choice(FUNCTIONS), rng.randrange(2), [rng.randrange(256) for _ in range(rng.randrange(0, 4))]]
+    ops = []
+    if rng.random() < 0.25:          # a received packet that is edited and sent on
+        ops.append(['decode', list(_frame_ref(rng.choice(TARGETS), rng.choice(TARGETS), rng.choice(FUNCTIONS), rng.randrange(2), 0,
+                                              [rng.randrange(256) for _ in range(rng.randrange(0, 4))])[2:])])
+    fields = ['source', 'destination', 'function', 'version', 'lastPacket', 'data']
+    for _ in range(rng.randrange(2, 5)):
+        ops.append([rng.choice(['enc', 'enc', 'write', 'write', 'uwrite'])])
+        for f in ([simple_field] if simple_field else rng.sample(fields, rng.randrange(0, 4))):
+            v = {'source': rng.choice(TARGETS), 'destination': rng.choice(TARGETS), 'function': rng.choice(FUNCTIONS),
+                 'version': rng.choice([0, 0, 0, 1, 2, 3]), 'lastPacket': rng.randrange(2),
+                 'data': [rng.randrange(256) for _ in range(rng.randrange(0, 5))]}[f]
+            ops.append(['set', f, v])
+    ops.append([rng.choice(['enc', 'write', 'uwrite'])])
+    return {'build': build, 'ops': ops}
+
+
+def _check_history(build, ops):
+    """every encode of one packet object reflects the CURRENT attribute values"""
+    outs = impl_history(build, ops)
+    cur = {'source': build[0], 'destination': build[1], 'function': build[2], 'lastPacket': build[3], 'version': 0, 'data': list(build[4])}
+    k = 0
+    for i, op in enumerate(ops):
+        if op[0] == 'set':
+            cur[op[1]] = op[2]
+        elif op[0] == 'decode':
+            b = op[1]
+            cur = {'source': (b[0] >> 3) & 7, 'destination': b[0] & 7, 'function': b[1] & 63, 'lastPacket': 1 if b[0] & 0x40 else 0,
+                   'version': b[1] >> 6, 'data': list(b[2:])}
+        else:
+            tcp = _frame_ref(cur['source'], cur['destination'], cur['function'], cur['lastPacket'], cur['version'], cur['data'])
+            want = {'enc': list(tcp[2:]), 'write': list(tcp),
+                    'uwrite': list(_uart_frame_ref(cur['source'], cur['destination'], cur['function'], cur['lastPacket'], cur['version'], cur['data']))}[op[0]]
+            if outs[k] != [0, len(want)] + want:
+                return {'observed': outs[k][2:], 'expected': want, 'detail': 'encode no. %d (%s, operation %d) does not carry the current attributes %s'
+                                                                             % (k, op[0], i, {f: v for f, v in cur.items() if f != 'data'})}
+            k += 1
+    return None
+
+
 def _driver_case(rng):
     nf = rng.choice([1, 2, 3, 4, 6])
     items = []
@@ -2126,6 +2230,7 @@ def _check_backlog(pkts, cuts, events):
 
 
 _CHECKS = {
+    'encode_ignores_field_change': lambda c: _check_history(c['build'], c['ops']),
     'tcp_driver_session_violated': lambda c: _check_driver(c['items'], c['cuts'], c['takes'], c['events']),
     'tcp_driver_misc': lambda c: _check_driver_misc(),
     'crtp_lost_at_connect': lambda c: _check_driver(c['items'], c['cuts'], c['takes'], c['events'], early=c['early']),
@@ -2321,6 +2426,15 @@ def oracle(ctx, deep=False):
                                     'trans': [3, 1, rng.choice([f for f in FUNCTIONS if f not in fs]), 0, [rng.randrange(256)]]})
     for n_big in (99, 150, 98):
         chk('uart_oversize_wedges_link', {'big': n_big, 'then': [5, 2, [1, 2, 3]]})
+    # 1b. one packet object encoded several times with attribute assignments in between (smallest first: one field at a time)
+    for f_ in ('source', 'destination', 'function', 'version', 'lastPacket', 'data'):
+        for kind in ('enc', 'write', 'uwrite'):
+            for v in ({'source': [2, 4], 'destination': [2, 4], 'function': [2, 15], 'version': [1, 0], 'lastPacket': [1, 0],
+                       'data': [[9], []]}[f_]):
+                chk('encode_ignores_field_change', {'build': [3, 1, 5, 0, [1]], 'ops': [[kind], ['set', f_, v], [kind]]})
+                chk('encode_ignores_field_change', {'build': [3, 1, 5, 1, [1]], 'ops': [[kind], ['set', f_, v], [kind]]})
+    for _ in range(ctx.scale(600, 10000)):
+        chk('encode_ignores_field_change', _history_case(rng))
     # 5e. TcpDriver as a whole (own connect(), both threads running)
     chk('tcp_driver_misc', {})
     chk('tcp_driver_session_violated', {'items': [[1, 3, 3, 0, [0x5E, 1, 2]]], 'cuts': [], 'takes': [],
